@@ -128,7 +128,6 @@ func (w *yieldWriter) Write(p []byte) (int, error) {
 	return w.buf.Write(p)
 }
 
-
 // coRun runs the bodies as goroutines under a cooperative scheduler: exactly one runs at a time, each
 // is descheduled at every Write call on its destination, and the explorer decides who runs next
 // (switching away from a runnable goroutine is a deviation = preemption).  It returns each body's
@@ -255,7 +254,7 @@ func c16Race(r *run.Run) {
 	}
 	start := time.Now()
 	p := &run.Part{Name: "C16.race", Engine: "free-running goroutines behind a barrier under the Go race detector (access monitor) + comparison with the sequential result",
-		Rule: fmt.Sprintf("every multiset of 2..%d operations (incl. the same operation twice) from the alphabet on each of the three shared fonts, %d repetitions each, GOMAXPROCS=16; independence of all pairs => all interleavings are equivalent to a serial order (dynamic partial-order argument)", size, reps),
+		Rule:       fmt.Sprintf("every multiset of 2..%d operations (incl. the same operation twice) from the alphabet on each of the three shared fonts, %d repetitions each, GOMAXPROCS=16; independence of all pairs => all interleavings are equivalent to a serial order (dynamic partial-order argument)", size, reps),
 		Exhaustive: true}
 	var viol []*explore.Violation
 	var samples []any
